@@ -124,7 +124,7 @@ fn exh(args: &Args, b: &mut Batcher) {
 }
 
 fn rand_programs(args: &Args, b: &mut Batcher, rng: &mut SmallRng) {
-    let count = if args.thorough { 6000 } else { 700 } / args.shard.1.max(1);
+    let count = if args.thorough { 24000 } else { 700 } / args.shard.1.max(1);
     for i in 0..count {
         let len = match rng.gen_range(0..10) {
             0 => rng.gen_range(200..600),
@@ -269,7 +269,7 @@ fn ctl(args: &Args, b: &mut Batcher, rng: &mut SmallRng) {
         one(b, format!("ctl/deep/{extra}"), std_cfg(prog, Snap::default()));
     }
     // random control-flow heavy programs
-    let count = if args.thorough { 3000 } else { 300 } / args.shard.1.max(1);
+    let count = if args.thorough { 12000 } else { 300 } / args.shard.1.max(1);
     for i in 0..count {
         let mut g = gen::Gen::new(rng);
         g.allow_compute = false;
@@ -347,7 +347,7 @@ fn gas(args: &Args, b: &mut Batcher, rng: &mut SmallRng) {
         }
     }
     // random programs under random small limits
-    let count = if args.thorough { 4000 } else { 400 } / args.shard.1.max(1);
+    let count = if args.thorough { 16000 } else { 400 } / args.shard.1.max(1);
     for i in 0..count {
         let len = rng.gen_range(5..60);
         let prog = gen::random_program(rng, len, true, 3);
@@ -440,7 +440,7 @@ fn compute(args: &Args, b: &mut Batcher, rng: &mut SmallRng) {
         one(b, format!("com/{name}"), cfg);
     }
     // random programs with compute blocks
-    let count = if args.thorough { 3000 } else { 300 } / args.shard.1.max(1);
+    let count = if args.thorough { 12000 } else { 300 } / args.shard.1.max(1);
     for i in 0..count {
         let len = rng.gen_range(10..70);
         let mut g = gen::Gen::new(rng);
@@ -456,7 +456,7 @@ fn compute(args: &Args, b: &mut Batcher, rng: &mut SmallRng) {
 
 // ---------------------------------------------------------------------------------------------
 fn equiv(args: &Args, b: &mut Batcher, rng: &mut SmallRng) {
-    let count = if args.thorough { 2500 } else { 250 } / args.shard.1.max(1);
+    let count = if args.thorough { 10000 } else { 250 } / args.shard.1.max(1);
     let mut progs: Vec<Vec<Op>> = gas_programs().into_iter().map(|p| p.1).filter(|p| p.len() != 3).collect();
     for _ in 0..count {
         let len = rng.gen_range(5..80);
@@ -498,7 +498,7 @@ fn equiv(args: &Args, b: &mut Batcher, rng: &mut SmallRng) {
 fn sched(args: &Args, b: &mut Batcher, rng: &mut SmallRng) {
     use std::sync::Arc;
     const TICK: i64 = -98;
-    let count = if args.thorough { 60 } else { 14 } / args.shard.1.max(1);
+    let count = if args.thorough { 120 } else { 14 } / args.shard.1.max(1);
     let pools: Vec<usize> = if args.thorough { vec![1, 2, 3, 4, 8, 16] } else { vec![1, 2, 4, 16] };
     for i in 0..count {
         let breadth = rng.gen_range(2..9i64);
@@ -571,7 +571,7 @@ fn sched(args: &Args, b: &mut Batcher, rng: &mut SmallRng) {
 /// where the uninterrupted run ends, with the gas adding up.
 fn resume(args: &Args, b: &mut Batcher, rng: &mut SmallRng) {
     let mut progs: Vec<Vec<Op>> = gas_programs().into_iter().filter(|p| p.0 != "infinite").map(|p| p.1).collect();
-    let count = if args.thorough { 400 } else { 60 } / args.shard.1.max(1);
+    let count = if args.thorough { 1600 } else { 60 } / args.shard.1.max(1);
     for _ in 0..count {
         let len = rng.gen_range(5..50);
         progs.push(gen::random_program(rng, len, true, 3));
